@@ -69,14 +69,12 @@ class EEMSRead(Command):
 
         fill_value = kwargs.get("MissingVal")
         data_type = kwargs.get("DataType", float)
-        if fill_value is not None:
-            data = numpy.ma.array(
-                values, mask=False, dtype=data_type, fill_value=data_type(fill_value)
-            )
-            mask = numpy.ma.where(data == data_type(fill_value), True, False)
-
         data = numpy.ma.array(values, mask=False, dtype=data_type)
         data.soften_mask()
+
+        if fill_value is not None:
+            # (compared as a plain number: the missing value need not fit the element type of the column)
+            mask = numpy.asarray(data.data == data_type(fill_value))
 
         if fill_value is not None:
             data.mask = mask
